@@ -44,3 +44,26 @@ Theorem C11_escape_order_irrelevant : forall ord, Permutation ord escape_table -
   forall s, escape_unsafe_ord ord s = escape_unsafe escape_table s.
 Proof. exact escape_order_irrelevant_current. Qed.
 Print Assumptions C11_escape_order_irrelevant.
+
+(* quote (after fixes/C11-2) always writes one DOUBLE_QUOTE_STRING token, so @json_tag / name= lines lex *)
+Theorem C11_quote_is_a_string_token : forall s, s <> [] -> dq_string_re (quote s) = true.
+Proof. exact quote_is_a_string_token. Qed.
+Print Assumptions C11_quote_is_a_string_token.
+
+(* obligations against the current source (Gen/ForeignTables.v) *)
+Theorem C11_lexer_keywords_are_decorated :
+  forallb (fun k => smem k Verif.Gen.ForeignTables.builtin_types || smem k Verif.Gen.ForeignTables.importer_keywords_ci)
+          Verif.Gen.ForeignTables.lexer_keywords_ci = true /\
+  forallb (fun k => smem k Verif.Gen.ForeignTables.importer_keywords_cs) Verif.Gen.ForeignTables.lexer_keywords_cs = true.
+Proof. exact keywords_covered. Qed.
+Print Assumptions C11_lexer_keywords_are_decorated.
+
+(* optionality of an OpenAPI property is membership in the WHOLE required list (loadTypeSchema + utils.Contains) *)
+Theorem C11_required_rule_is_whole_list :
+  nth_error Verif.Gen.ForeignTables.required_rule 3 = Some "f.Optional = !utils.Contains(fname, schema.Required)"%string /\
+  Verif.Gen.ForeignTables.contains_shape =
+    ["func(needle string, haystack []string) bool";
+     "for _, x := range haystack { if x == needle { return true } }";
+     "return false"]%string.
+Proof. split; [rewrite required_rule_ok; reflexivity|exact contains_shape_ok]. Qed.
+Print Assumptions C11_required_rule_is_whole_list.
